@@ -212,21 +212,27 @@ def coo_append(coo, tup):
 
     if (coo.ind[0] - np.abs(coo.min[0])) >= COO_QUICKSORT_LIMIT:
         coo_sum_duplicates(coo)
-        if (coo.key.shape[0] - np.abs(coo.min[0])) <= COO_QUICKSORT_LIMIT:
+        if (coo.key.shape[0] - np.abs(coo.min[0])) <= COO_QUICKSORT_LIMIT or (
+            coo.depth[0] + 4 >= coo.min.shape[0]
+        ):
             merge_all_sum_duplicates(coo)
             if (
                 coo.ind[0] >= 0.95 * coo.key.shape[0]
                 or coo.ind[0] >= coo.key.shape[0] - 1
+                or coo.depth[0] + 4 >= coo.min.shape[0]
             ):
                 coo = coo_increase_mem(coo)
 
     if coo.ind[0] == coo.key.shape[0] - 1:
         coo_sum_duplicates(coo)
-        if (coo.key.shape[0] - np.abs(coo.min[0])) <= COO_QUICKSORT_LIMIT:
+        if (coo.key.shape[0] - np.abs(coo.min[0])) <= COO_QUICKSORT_LIMIT or (
+            coo.depth[0] + 4 >= coo.min.shape[0]
+        ):
             merge_all_sum_duplicates(coo)
             if (
                 coo.ind[0] >= 0.95 * coo.key.shape[0]
                 or coo.ind[0] >= coo.key.shape[0] - 1
+                or coo.depth[0] + 4 >= coo.min.shape[0]
             ):
                 coo = coo_increase_mem(coo)
 
